@@ -24,7 +24,7 @@ FRAGMENT = {
          'least 3 frames delivered and at least 4 feed calls; distinct = distinct event-log hash',
  'fault_kinds': ['fault_ts_drop', 'fault_ts_dup', 'fault_ts_swap', 'fault_ts_cc', 'fault_ts_tei', 'fault_ts_scrambled', 'fault_ts_pusi', 'fault_ts_afc', 'fault_ts_trunc',
                  'fault_ts_pid', 'fault_pes_drop', 'fault_pes_dup', 'fault_pes_swap', 'fault_pes_trunc', 'fault_pes_length', 'fault_pes_header', 'fault_du_illegal',
-                 'fault_bitflip_du', 'fault_bitflip_any', 'fault_garbage_safe', 'fault_garbage_any', 'fault_foreign', 'fault_random_stream'],
+                 'fault_bitflip_du', 'fault_bitflip_any', 'fault_garbage_safe', 'fault_garbage_any', 'fault_foreign', 'fault_random_stream', 'fault_du_flood', 'fault_du_flood_more_than_64_lines'],
  'components': {'real': ['src/dvb_demux.c', 'src/hamm.c (vbi_rev8)', 'src/dvb_mux.c (stream source of ~6% of the runs)'],
                 'stub': ['PES/TS stream encoder', 'multiplexer of VBI / foreign sources = seeded scheduler', 'fault injector on stream units',
                          'transport = pipe + task taking pieces of planned size from what the scheduler let the sources produce']},
